@@ -165,6 +165,9 @@ def drive_c03(ctx):
     P = ['C03']
     if ctx.shard == 0:
         ambient_decimal_context(ctx, P)
+    if ctx.shard == 3:
+        under_legacy(ctx, P, frames=False)
+        colliding_long_keys(ctx, P)
     replay_small_values(ctx, P)
     for i, v in enumerate(small_shapes()):
         if mine(ctx, i):
@@ -209,6 +212,8 @@ def method_roundtrips(ctx, props, per_class):
 @driver('C01')
 def drive_c01(ctx):
     class_failure_pairs(ctx, ['C01'], decode_side=False)
+    if ctx.shard == 1:
+        under_legacy(ctx, ['C01'], frames='methods')
     from pamqp import base as _base
     for f in small_frames(ctx):
         if isinstance(f, _base.Frame):
@@ -241,6 +246,8 @@ def drive_c01(ctx):
 @driver('C02')
 def drive_c02(ctx):
     rec, rng = ctx.rec, ctx.rng
+    if ctx.shard == 2:
+        under_legacy(ctx, ['C02'], frames='headers')
     reps = 1 if ctx.quick else 8
     for rep in range(reps):
         for subset in range(8192):
@@ -366,6 +373,10 @@ def drive_c04(ctx):
         unrepresentable_strings(ctx, P)
     if ctx.shard == 4:
         exotic_but_accepted(ctx, P)
+    if ctx.shard == 5:
+        under_legacy(ctx, P)
+    if ctx.shard == 6:
+        colliding_long_keys(ctx, P)
     for _ in range(200 if ctx.quick else 5000):
         ty = rng.choice(['octet', 'short', 'long', 'longlong', 'shortstr', 'longstr', 'table', 'timestamp'])
         if ty == 'timestamp':
@@ -409,7 +420,7 @@ def drive_c14(ctx):
     items = list(commands.INDEX_MAPPING.items())
     rec.add('MappingKeys', P, nt=True, keys=sorted(as_int(k) for k, _ in items), n=len(items))
     for key, cls in items:
-        slots = list(cls.__slots__)
+        slots = [x if isinstance(x, str) else repr(x) for x in cls.__slots__]      # (whatever the catalogue holds is reported, never assumed)
         try:
             first = cls()
             for a in slots:          # in-place changes to the first instance's containers must not reach a later default
@@ -466,7 +477,7 @@ def drive_c14(ctx):
         rec.add('CatalogEntry', P, nt=True, sigx=str(cls.name), key=as_int(key), name=str(cls.name), frame_id=as_int(cls.frame_id), index=as_int(cls.index),
                 slots=slots, types=types, sync=bool(cls.synchronous), sync_is_bool=isinstance(cls.synchronous, bool),
                 responses=[str(x) for x in cls.valid_responses], defaults=defaults,
-                docs=[docs.get(a, '') for a in slots], attributes=list(cls.attributes()), pos_in=pos_in, pos_back=pos_back)
+                docs=[docs.get(a, '') for a in slots], attributes=[x if isinstance(x, str) else repr(x) for x in cls.attributes()], pos_in=pos_in, pos_back=pos_back)
     pr = commands.Basic.Properties
     slots = list(pr.__slots__)
     o = pr()
@@ -502,12 +513,12 @@ def drive_c14(ctx):
     for key, cls in items2:
         if not isinstance(cls, type):     # (the keys event above already differs from the first pass)
             continue
-        slots = list(cls.__slots__)
+        slots = [x if isinstance(x, str) else repr(x) for x in cls.__slots__]
         rec.add('CatalogEntry', P, nt=True, second_pass=True, sigx=str(cls.name), key=as_int(key), name=str(cls.name),
                 frame_id=as_int(cls.frame_id), index=as_int(cls.index), slots=slots,
                 types=[str(getattr(cls, '_' + a, '<missing>')) for a in slots], sync=bool(cls.synchronous),
                 sync_is_bool=isinstance(cls.synchronous, bool), responses=[str(x) for x in cls.valid_responses],
-                defaults=[], docs=[], attributes=list(cls.attributes()))
+                defaults=[], docs=[], attributes=[x if isinstance(x, str) else repr(x) for x in cls.attributes()])
     slots = list(pr.__slots__)
     o = pr()
     rec.add('PropertiesEntry', P, nt=True, second_pass=True, name=str(pr.name), frame_id=as_int(pr.frame_id), index=as_int(pr.index),
@@ -546,12 +557,12 @@ def drive_c17(ctx):
     if ctx.shard != 0:
         return
     items = list(exceptions.CLASS_MAPPING.items())
-    rec.add('ReplyKeys', P, nt=True, keys=sorted(as_int(k) for k, _ in items), classes=sorted(set(c.__name__ for _, c in items)))
+    rec.add('ReplyKeys', P, nt=True, keys=sorted(as_int(k) for k, _ in items), classes=sorted(set(str(getattr(c, '__name__', repr(c))) for _, c in items)))
     for key, cls in items:
-        rec.add('ReplyCode', P, nt=True, key=as_int(key), value=as_int(cls.value), name=str(cls.name), cls=cls.__name__,
-                soft=issubclass(cls, exceptions.AMQPSoftError), hard=issubclass(cls, exceptions.AMQPHardError),
-                amqp=issubclass(cls, exceptions.AMQPError), base=issubclass(cls, exceptions.PAMQPException),
-                is_exc=issubclass(cls, Exception))
+        rec.add('ReplyCode', P, nt=True, key=as_int(key), value=as_int(getattr(cls, 'value', None)), name=str(getattr(cls, 'name', '<missing>')), cls=str(getattr(cls, '__name__', repr(cls))),
+                soft=(isinstance(cls, type) and issubclass(cls, exceptions.AMQPSoftError)), hard=(isinstance(cls, type) and issubclass(cls, exceptions.AMQPHardError)),
+                amqp=(isinstance(cls, type) and issubclass(cls, exceptions.AMQPError)), base=(isinstance(cls, type) and issubclass(cls, exceptions.PAMQPException)),
+                is_exc=(isinstance(cls, type) and issubclass(cls, Exception)))
     def _l(x):
         try:
             return [as_int(v) for v in x]
@@ -613,12 +624,12 @@ def drive_c17(ctx):
     generic_storm(ctx)
     constants_event(second_pass=True)
     items = list(exceptions.CLASS_MAPPING.items())
-    rec.add('ReplyKeys', P, nt=True, keys=sorted(as_int(k) for k, _ in items), classes=sorted(set(c.__name__ for _, c in items)))
+    rec.add('ReplyKeys', P, nt=True, keys=sorted(as_int(k) for k, _ in items), classes=sorted(set(str(getattr(c, '__name__', repr(c))) for _, c in items)))
     for key, cls in items:
-        rec.add('ReplyCode', P, nt=True, second_pass=True, key=as_int(key), value=as_int(cls.value), name=str(cls.name), cls=cls.__name__,
-                soft=issubclass(cls, exceptions.AMQPSoftError), hard=issubclass(cls, exceptions.AMQPHardError),
-                amqp=issubclass(cls, exceptions.AMQPError), base=issubclass(cls, exceptions.PAMQPException),
-                is_exc=issubclass(cls, Exception))
+        rec.add('ReplyCode', P, nt=True, second_pass=True, key=as_int(key), value=as_int(getattr(cls, 'value', None)), name=str(getattr(cls, 'name', '<missing>')), cls=str(getattr(cls, '__name__', repr(cls))),
+                soft=(isinstance(cls, type) and issubclass(cls, exceptions.AMQPSoftError)), hard=(isinstance(cls, type) and issubclass(cls, exceptions.AMQPHardError)),
+                amqp=(isinstance(cls, type) and issubclass(cls, exceptions.AMQPError)), base=(isinstance(cls, type) and issubclass(cls, exceptions.PAMQPException)),
+                is_exc=(isinstance(cls, type) and issubclass(cls, Exception)))
 
 
 # ---------------------------------------------------------------------------
@@ -1399,6 +1410,8 @@ def drive_c10(ctx):
     P = ['C10']
     if ctx.shard == 3:
         ambient_decimal_context(ctx, P)
+    if ctx.shard == 4:
+        under_legacy(ctx, P)
     replay_small_values(ctx, P)
     vals = wild_ints(rng) + wild_decimals(rng) + wild_datetimes(rng) + wild_misc(rng) + \
         [gen.rand_float(rng, allow_overflow=True) for _ in range(60)]
@@ -1509,6 +1522,9 @@ def drive_c12(ctx):
             rec.add('RoundTrip', P, nt=True, **actions.roundtrip(framegen.rand_method(rng, sm), 1))
     if ctx.shard in (0, 5):
         exotic_but_accepted(ctx, P)
+    if ctx.shard == 6:
+        under_legacy(ctx, P)
+        colliding_long_keys(ctx, P)
 
 
 # ---------------------------------------------------------------------------
@@ -1649,6 +1665,8 @@ def drive_c16(ctx):
     cross_thread_toggles(ctx, ['C16'])
     if ctx.shard in (2, 3):
         exotic_but_accepted(ctx, ['C16'])
+    if ctx.shard == 4:
+        under_legacy(ctx, ['C16'])
     if ctx.shard == 1:
         ambient_decimal_context(ctx, ['C16'])
     scheds = ctx.gen.get('schedules')
@@ -2313,6 +2331,54 @@ def truncated_size_prefixes(ctx, props):
                     for content in (b'X' * r + b'\xce', b'\xce' * (r + 3), b'X' * r + b'\xce' + b'\x03\x00\x01\x00\x00\x00\x01Y\xce', b'X' * r):
                         buf = struct.pack('>BHI', 3, ch, size) + content
                         rec.add('Unmarshal', props, nt=True, label='size-trunc-%d' % bits, **actions.unmarshal(buf, extra={'body_prefix': True}))
+
+
+def under_legacy(ctx, props, frames=True):
+    """features meeting the legacy-integer switch: every leaf kind (booleans, floats, decimals, strings, timestamps, None,
+    byte arrays) and confusable siblings (1 / True / 1.0 / Decimal(1)) inside tables and arrays while the switch is ON --
+    only the integer tags may change"""
+    import decimal
+    from pamqp import commands, header
+    rec, rng = ctx.rec, ctx.rng
+    rec.add('Toggle', props, **actions.toggle('true'))
+    leaves = [True, False, 0, 1, -1, 127, 128, 255, 256, 40000, 65535, 65536, 3000000000, -2147483649, 2 ** 63 - 1, -2 ** 63,
+              1.0, -0.0, 1.5, decimal.Decimal(1), decimal.Decimal('1.0'), decimal.Decimal('-3.14'), 'text', '', b'raw'.decode(), None,
+              bytearray(b'ba'), gen.rand_datetime_in_range(rng)]
+    for v in leaves:
+        rec.add('EncodeValue', props, nt=True, label='under-legacy', **actions.encode_value(v, 'top'))
+    for grp in gen.CONFUSABLE:
+        for a in grp:
+            for b in grp:
+                rec.add('EncodeValue', props, nt=True, label='under-legacy', **actions.encode_value([a, b], 'array'))
+                rec.add('EncodeValue', props, nt=True, label='under-legacy', **actions.encode_value({'a': a, 'b': [b, {'c': a}]}, 'table'))
+    tbl = {'flag': True, 'off': False, 'n': 40000, 'big': 3000000000, 'neg': -2147483649, 'l': [True, 1, False, 0, [True]], 't': {'x': True, 'y': 65535}}
+    rec.add('EncodeValue', props, nt=True, label='under-legacy', **actions.encode_value(tbl, 'table'))
+    frs = []
+    if frames in (True, 'methods'):
+        frs += [commands.Queue.Declare(queue='q', durable=True, arguments=dict(tbl)),
+                commands.Connection.StartOk(client_properties={'capabilities': {'publisher_confirms': True, 'basic.nack': True, 'n': 65535}}),
+                commands.Basic.Consume(queue='q', no_ack=True, arguments={'x-priority': 40000, 'x-cancel-on-ha-failover': True})]
+    if frames in (True, 'headers'):
+        frs += [header.ContentHeader(0, 5, commands.Basic.Properties(headers=dict(tbl), priority=1, delivery_mode=2)),
+                header.ContentHeader(0, 5, commands.Basic.Properties(headers={'l': [True, 2], 'b': False}))]
+    for fr in frs:
+        rec.add('RoundTrip', props, nt=True, label='under-legacy', **actions.roundtrip(fr, 1))
+    rec.add('Toggle', props, **actions.toggle('false'))
+
+
+def colliding_long_keys(ctx, props):
+    """names longer than 128 characters that agree in their first 128: emitted in full-name order under the same shortened
+    name, whatever their values are (descending, unorderable, equal)"""
+    rec = ctx.rec
+    P128 = 'p' * 128
+    cases = [{P128 + '-a': 2, P128 + '-b': 1}, {P128 + '-b': 1, P128 + '-a': 2}, {P128 + '-a': {'x': 1}, P128 + '-b': 'str', P128: None},
+             {P128 + 'z': 'last', P128: 'first', P128 + 'a': [1]}, {'a': 1, P128 + '2': 5, P128 + '1': 9, 'zz': 0},
+             {'outer': {P128 + '-a': 2, P128 + '-b': 1}, 'arr': [{P128 + 'y': 1, P128 + 'x': 2}]}]
+    for t in cases:
+        rec.add('EncodeValue', props, nt=True, label='colliding-long-keys', **actions.encode_value(t, 'table'))
+        rec.add('EncodeValue', props, nt=True, label='colliding-long-keys', **actions.encode_value([t], 'array'))
+    from pamqp import commands
+    rec.add('RoundTrip', props, nt=True, label='colliding-long-keys', **actions.roundtrip(commands.Queue.Declare(queue='q', arguments=cases[0]), 1))
 
 
 def unrepresentable_strings(ctx, props):
